@@ -40,6 +40,9 @@ def gen_int(rnd, signed=None, enum_ok=True):
         ft = {'class': 'sint' if signed else 'uint', 'size': size,
               'alignment': rnd.choice([a for a in mult if a % size == 0] or mult) if rnd.random() < 0.7 else rnd.choice(mult)}
         return ft
+    if rnd.random() < (0.4 if BIAS['bits'] else 0.08):
+        # a byte-sized integer that is NOT byte-aligned (the memcpy fast path must not be taken for it)
+        return {'class': 'sint' if signed else 'uint', 'size': rnd.choice([8, 16, 32, 64]), 'alignment': rnd.choice([1, 1, 2, 4])}
     r = rnd.random()
     if r < 0.35:
         size = rnd.choice([8, 16, 32, 64])
@@ -133,6 +136,13 @@ def gen_feature_uint(rnd, minsize=1, sizes=None):
     ft = {'class': 'uint', 'size': size}
     if rnd.random() < (0.9 if BIAS['bits'] else 0.5):
         ft['alignment'] = pick_align(rnd, 0.5)
+    if rnd.random() < 0.2:
+        # feature field types may be unsigned enumerations
+        ft['class'] = 'uenum'
+        hi = (1 << size) - 1
+        ft['mappings'] = {'A': [0], 'REST': [[min(1, hi), hi]]} if rnd.random() < 0.5 else {'ONLY': [rnd.randint(0, hi)]}
+    if rnd.random() < 0.15:
+        ft['preferred-display-base'] = rnd.choice(['bin', 'oct', 'dec', 'hex'])
     return ft
 
 
@@ -288,9 +298,14 @@ def _gen_config_tree(rnd, ndst, profile):
     if rnd.random() < 0.3:
         cfg['trace']['environment'] = {'a': 1, 'b': 'x"y\\z', 'neg': -5}
     opts = {}
-    if rnd.random() < 0.4:
+    r_p = rnd.random()
+    if r_p < 0.3:
         p = rnd.choice(['my_', 'bctf', 'T_x_'])
         opts['prefix'] = p
+    elif r_p < 0.45:
+        # object form: identifier and file name prefixes are independent (docs: `file-name: acme-corp`)
+        opts['prefix'] = {'identifier': rnd.choice(['my_', 'acme_', 'T_x_']),
+                          'file-name': rnd.choice(['acme-corp', 'tracer', 'my.files', 'T_x'])}
     if rnd.random() < 0.3:
         opts['header'] = {'identifier-prefix-definition': rnd.random() < 0.5,
                           'default-data-stream-type-name-definition': rnd.random() < 0.5}
